@@ -49,6 +49,49 @@ CHECKS.update({
                 note='weakest claim of the set: arbitrary text beyond 3 lexemes, option combinations beyond the 14 sets and deep recursion are outside'),
 })
 
+CHECKS.update({
+    'C06': dict(level=EX, engine='E3 CrossHair', design='3/C06',
+                technique='CrossHair path exploration of the real format() over a seeded slice of the verification grammar and over lexeme choices x 14 option sets; oracle re-lexes the output with the real lexer',
+                text='explored, not proven: every script of the slice/lexeme bound under each of 14 option sets keeps exactly its sequence of non-whitespace tokens and its statement count. The filter code rewrites trees by object identity and C-level joins; no SMT encoding of it is within reach, so the claim is exploration only.',
+                note='1/6779 (quick) or 1/211 (thorough) of 338 688 generated scripts per option set, slice chosen by VERIF_SEED; other option combinations outside'),
+    'C08': dict(level=MC, engine='E3 CrossHair + E1', design='3/C08',
+                technique='CrossHair symbolic execution of the real token filters (symbolic literal body, unbounded symbolic width, symbolic marker; token type x value x case tables) + E1 SMT queries on what the filters assume about lexer tokens + CrossHair over strip_comments on lexeme choices',
+                text='the token-stream filters are pure maps, confirmed over all paths incl. ANY truncation width; z3 shows every String.Single token is quote-delimited and every identifier token non-blank (the seams the filters rely on); strip_comments is explored end-to-end. One known finding (adjacent comments).',
+                note='strip_comments part is exploration over 12/16 lexemes x 3/4'),
+    'C09': dict(level=MC, engine='E3 CrossHair', design='3/C09',
+                technique='CrossHair symbolic execution of the real _group_matching and of the whole grouping.group() on statements of symbolic token kinds, against a textbook stack matcher; parse() over lexeme choices',
+                text='confirmed over all paths for statements of 4/5 tokens x 6 classes with a pre-existing group of another class at every position, and for the full pass pipeline over 4/5 tokens of 5/8 kinds (pass order is part of the claim); end-to-end over 13/16 lexemes x 3/4.',
+                note='reference matcher validated natively against 250k scripts during development; nesting deeper than the bound is outside'),
+    'C10': dict(level=EX, engine='E3 CrossHair', design='3/C10',
+                technique='CrossHair path exploration of the real format() over a seeded slice of the verification grammar x 14 option sets with normal-form oracles on the re-lexed output',
+                text='explored, not proven: strip_whitespace / operator spacing / reindent normal forms and the two fixed points hold on every script of the slice.',
+                note='1/3389 (quick) or 1/211 (thorough) of 338 688 scripts per option set'),
+    'C11': dict(level=MC, engine='E1 two-copy + E2 + E3', design='3/C11',
+                technique='two-copy SMT queries over two symbolic texts (tokenizer model, z3); exhaustive comparison of the translated splitter\'s predicate tables over respellings; CrossHair on is_keyword and on parse() of respelled templates',
+                text='z3: two texts of <= 7(6)/9 characters that differ only in inter-token / intra-keyword whitespace characters or in keyword letter case have the same non-whitespace tokens; the translated splitter cannot distinguish respellings of a keyword (except the listed GO finding); tree shape, node classes and get_type are identical for 14 templates x 24 respellings.',
+                note='length-changing respellings only at tree level; two known findings, three fixes'),
+    'C12': dict(level=EX, engine='E3 CrossHair', design='3/C12',
+                technique='CrossHair symbolic execution of remove_quotes (every str <= 4) and of the accessors on hand-built identifiers; CrossHair over parse() on a finite product of written references',
+                text='remove_quotes and the accessor kernel are confirmed over all paths; the parsed-reference claim is an exhaustive exploration of a finite product (7 spellings x 3 qualifiers x 4 aliases x 2/3 whitespace x 11 contexts).',
+                note='other spellings/contexts outside'),
+    'C13': dict(level=EX, engine='E3 CrossHair', design='3/C13',
+                technique='CrossHair path exploration of parse() over generated clauses whose written parts are the oracle',
+                text='explored: Where spans (6 conditions x 11 followers x 4 wrappers incl. nested and sibling WHEREs), item lists, function parameters, comparison operands, typed literals (all interval units), CASE parts.',
+                note='pure tree code; no stronger encoding within reach'),
+    'C18': dict(level=MC, engine='E1 two-copy + E3', design='3/C18',
+                technique='two-copy SMT query on the tokenizer model + keyword trie (z3): DML/DDL typing of a leading word is independent of the continuation; CrossHair on the real Statement.get_type over statements of symbolic token kinds and over parsed templates',
+                text='z3 decides context-independence of DML/DDL/CTE typing for words of 2..10/13 letters; CrossHair confirms get_type == spec over all statements of 4/5 tokens of 9/12 kinds and over 12 keywords x 7 prefixes x 3 casings x 8 continuations + WITH forms.',
+                note='WITH statements decided for the well-formed shape only'),
+    'C19': dict(level=MC, engine='E3 CrossHair', design='3/C19',
+                technique='CrossHair symbolic execution of the real bytes/stream preamble of Lexer.get_tokens (symbolic bytes <= 3, symbolic str <= 3) + CrossHair over all entry points x input forms on lexeme choices',
+                text='library half only: decode-once semantics (given encoding, else UTF-8, else Latin-1) confirmed over all paths; str/bytes/stream x parse/parsestream/split/format agree on every script of the lexeme bound. The sqlformat CLI half is not claimed.',
+                note='CLI (argparse, files, stdout) is outside every engine here -- stated in DESIGN.md'),
+    'C20': dict(level=MC, engine='E2 thread BMC + E3', design='3/C20',
+                technique='AST -> transition system translation of get_default_instance/default_initialization, bounded model checking of all schedules of 2/3 threads (z3 QF_BV), counterexample replayed with real threads; CrossHair over call histories',
+                text='z3: in every schedule of the translated statements each thread returns a fully initialised lexer; CrossHair: every sequence of 2/3 prior calls (ok, raising, abandoned generators, reconfiguration + default_initialization) leaves parse/split/format/tokenize results unchanged.',
+                note='one source statement = one atomic step; concurrent parse/format calls are not decided'),
+})
+
 NOT_YET = {}
 
 NA = {
